@@ -13,7 +13,7 @@ RULE = ('pair cases: all ordered pairs of a Size grid (5 units x 7 magnitudes) a
         'sizes etc.: symmetry, negation, equal => same hash); string cases: every string of the '
         'stated length over the alphabet 0159.+-eEpxm%ct<space> sharing a 2-char prefix (one case per '
         'prefix; strings are counted in monitor_counters.strings_checked); print / shorthand / '
-        'receiver-immutability cases are random. Non-trivial: pair cases whose two values differ in '
+        'receiver-immutability cases are random. A used receiver is asked a second relativization; parsed sizes are compared with constructed twins. Non-trivial: pair cases whose two values differ in '
         'at most one leaf or are equal; string batches; print cases with >2 decimals; '
         'shorthands of arity >= 2; immutability cases on non-percentage receivers.')
 ANCHORS = [
